@@ -32,6 +32,10 @@ let send_mode : bool array ref = ref [||]
 let show_cls_for i k =
   if i < Array.length !send_mode && !send_mode.(i) then (match k with COk -> "ok" | _ -> "err") else show_cls k
 
+(* calls made with Send / PipelineSend: the library builds their ReleaseArgs itself, the harness cannot see it *)
+let via_ans : bool array ref = ref [||]
+let rel_visible i = not (i < Array.length !via_ans && !via_ans.(i))
+
 let visible = function
   | EvBegin c -> Some ("b" ^ string_of_int (n2i c))
   | EvDeliver (p, DRes c) -> Some (Printf.sprintf "v%d:r%d" (n2i p) (n2i c))
@@ -57,7 +61,7 @@ let key n c =
   (ongoing c, starting c, full c, drain c, shpc c, panicked c, shcount c,
    List.map (fun i -> let i = i2n i in
      ((spc c i, ipc c i, ppc c i), (cancelled c i, icanc c i, acked c i, gate_rel c i, idone c i),
-      (slot c i, ierr c i, gotp c i), (aq_q c i, aq_ph c i), (penq c i, proot c i, pbasis c i, tret c i, compl c i))) (ids n))
+      (slot c i, ierr c i, gotp c i), (aq_q c i, aq_ph c i), (penq c i, proot c i, pbasis c i, tret c i, compl c i, rel c i))) (ids n))
 
 let internal_tids n c =
   let per i = let x = i2n i in
@@ -77,7 +81,11 @@ let state_obs p n c =
         | _ -> Some (Printf.sprintf "%d%s" i (if penq c x <> None then "q" else "x")))) (ids n) in
   let canc = List.filter_map (fun i -> let x = i2n i in
     if in_impl (ipc c x) && (cancelled c x || icanc c x) then Some (Printf.sprintf "c%d" i) else None) (ids n) in
-  "{" ^ String.concat "," compls ^ "|" ^ String.concat "," returned ^ "|" ^ String.concat "," canc ^ "}"
+  let rels = List.filter_map (fun i -> let k = n2i (rel c (i2n i)) in
+    if not (rel_visible i) || k = 0 then None
+    else Some (if k = 1 then string_of_int i else Printf.sprintf "%dx%d" i k)) (ids n) in
+  "{" ^ String.concat "," compls ^ "|" ^ String.concat "," returned ^ "|" ^ String.concat "," canc
+  ^ "|" ^ String.concat "," rels ^ "}"
 
 (* all quiescent configurations reachable from (c, rem) by internal steps emitting exactly rem *)
 let explore p n (starts : (config * string list) list) (sobs : string) : config list =
@@ -148,9 +156,11 @@ let summary p n c =
   let compls = List.map (fun i -> let l = compl c (i2n i) in
     Printf.sprintf "%d:%s" i (if l = [] then "-" else String.concat "+" (List.rev_map (show_cls_for i) l))) (ids n) in
   let deliv = List.filter_map (fun e -> match e with EvDeliver _ -> visible e | _ -> None) tr in
-  Printf.sprintf "ok order=%s maxrun=%d compl=%s shut=%d deliv=%s viol=-%s"
+  let rels = List.map (fun i ->
+    if rel_visible i then Printf.sprintf "%d:%d" i (n2i (rel c (i2n i))) else Printf.sprintf "%d:?" i) (ids n) in
+  Printf.sprintf "ok order=%s maxrun=%d compl=%s shut=%d deliv=%s rel=%s viol=-%s"
     (String.concat "," order) !mx (String.concat "," compls) (n2i (shcount c))
-    (String.concat "," deliv) (if panicked c then " PANIC" else "")
+    (String.concat "," deliv) (String.concat "," rels) (if panicked c then " PANIC" else "")
 
 let run_case line =
   match split_ws line with
@@ -164,12 +174,17 @@ let run_case line =
       | Direct -> String.length sp > 0 && sp.[0] = 's'
       | Pipe on -> is_psend sp || (let o = n2i on in if o < i then root_send o else false) in
     send_mode := Array.init n root_send;
+    via_ans := Array.init n (fun i -> let sp = List.nth rest i in
+      match fst specs.(i) with
+      | Direct -> String.length sp > 0 && sp.[0] = 's'
+      | Pipe _ -> is_psend sp);
     let rec drop k l = if k <= 0 then l else match l with [] -> [] | _ :: r -> drop (k - 1) r in
     let items = match drop n rest with "|" :: r -> r | _ -> failwith "sep" in
     let get x = let i = n2i x in if i < n then specs.(i) else (Direct, None) in
     let p = { p_max = i2n (int_of_string mx); p_qsize = i2n (int_of_string qs);
               p_kind = (fun x -> fst (get x)); p_pred = (fun x -> snd (get x)); p_fixed = (fx = "1");
-              p_slow = (fun x -> let i = n2i x in i < n && is_slow (List.nth rest i)) } in
+              p_slow = (fun x -> let i = n2i x in i < n && is_slow (List.nth rest i));
+              p_relfix = true (* the code as it is; the other variant is only the subject of C12_args_released_once_refuted *) } in
     let cfgs = ref [init p] in
     let idx = ref 0 in
     let result = ref None in
